@@ -226,3 +226,21 @@ class FDC:
 class FDCN:
     a: object
     b: object = dataclasses.field(init=False, default=None)
+
+
+from redun.context import get_context  # noqa: E402
+
+
+@task()
+def cleaf(x, v=get_context("v", "none")):
+    return (x, v)
+
+
+@task()
+def cmid(x):
+    return cleaf(x)
+
+
+@task(check_valid="shallow")
+def cmid_s(x):
+    return cleaf(x)
